@@ -610,6 +610,8 @@ theorem step_runOp {q : Prop} (h : HState) (op : SOp) (hq : q â†’ âˆ€ info, op â
       Â· exact step_same rfl rfl
     | ePush code info => exact step_pushError _ _ _ 0 (fun hq' hc => hq hq' info (by rw [hc]))
     | iTag => exact step_emit _ _ rfl
+    | iIsCmd s => exact step_emit _ _ rfl
+    | iMatch pat s => exact step_emit _ _ rfl
     | iNums n d =>
       simp only []
       split
